@@ -10,6 +10,7 @@ import (
 	"io"
 	"strconv"
 	"strings"
+	"time"
 
 	"github.com/named-data/ndnd/fw/defn"
 	"github.com/named-data/ndnd/fw/dispatch"
@@ -150,6 +151,42 @@ func linkFrame(frame []byte) string {
 	}
 	e, s, b := face.VerifC04StoreStats(ls)
 	return fmt.Sprintf("dec=%d i=%d d=%d:%s store=%d/%d/%d cnt=%d/%d qs=%s", dec, ni, nd, strings.Join(where, "+"), e, s, b, ls.NInInterests(), ls.NInData(), queuedStable())
+}
+
+// linkSoak: for <ms> of real time the face keeps receiving first fragments of 4096 two-fragment messages
+// whose second fragment never comes (a lossy peer), round and round: nothing that runs in the background
+// of the link service (timers, clean-up) may collide with the receive path.  The store ends up holding the
+// 4096 incomplete messages whatever the number of rounds (a repeated fragment changes nothing).
+func linkSoak(ms int) string {
+	if ls == nil {
+		return "skip"
+	}
+	for _, t := range threads {
+		t.interests, t.data = 0, 0
+	}
+	one := uint64(0)
+	two := uint64(2)
+	frag := simpleData("s", []byte("soak"))[:8]
+	out := common.Guard(func() string {
+		deadline := time.Now().Add(time.Duration(ms) * time.Millisecond)
+		for round := 0; round == 0 || time.Now().Before(deadline); round++ {
+			for i := 0; i < 4096; i++ {
+				seq := uint64(1<<40) + uint64(2*i)
+				f := lpFrame(&seq, &one, &two, nil, frag)
+				if len(rbuf) < len(f) {
+					rbuf = make([]byte, len(f)+defn.MaxNDNPacketSize)
+				}
+				n := copy(rbuf, f)
+				face.VerifC04HandleFrame(ls, rbuf[:n])
+			}
+		}
+		return ""
+	})
+	if out != "" {
+		return out
+	}
+	e, sl, b := face.VerifC04StoreStats(ls)
+	return fmt.Sprintf("store=%d/%d/%d cnt=%d/%d qs=%s", e, sl, b, ls.NInInterests(), ls.NInData(), queuedStable())
 }
 
 // ---------------------------------------------------------------- stream framing
@@ -480,6 +517,10 @@ func genLink(g *common.Gen, packets [][]byte) {
 			g.Op("frame %s", common.Hex(lpFrame(p(low+1), p(1), p(2), nil, pk[10:])))
 			g.Op("frame %s", common.Hex(lpFrame(p(5000+1), p(1), p(2), nil, pk[10:])))
 			g.Stat("frame-many-incomplete")
+		}
+		if h == 4 && reasm {
+			g.Op("soak 650") // once per run: longer than any reassembly timer a link service might arm
+			g.Stat("link-soak")
 		}
 		nOps := r.Range(8, 30)
 		for k := 0; k < nOps; k++ {
